@@ -95,9 +95,20 @@ impl<'a> Display for FormatReportFormatter<'a> {
 
 fn annotation(error: &FormattingError) -> Option<Annotation<'_>> {
     let (range_start, range_length) = error.format_len();
-    let range_end = range_start + range_length;
+    // The range counts columns (a tab is `tab_spaces` of them, any other character one) but it
+    // annotates the bytes of `line_buffer`: keep it inside the line and on character boundaries.
+    let line = &error.line_buffer;
+    let floor = |mut pos: usize| {
+        pos = pos.min(line.len());
+        while !line.is_char_boundary(pos) {
+            pos -= 1;
+        }
+        pos
+    };
+    let range_end = floor(range_start + range_length);
+    let range_start = floor(range_start);
 
-    if range_length > 0 {
+    if range_start < range_end {
         Some(Level::Error.span(range_start..range_end))
     } else {
         None
